@@ -31,6 +31,7 @@ type c05Load struct {
 	SinkPool     int    `json:"sink_pool_size"`
 	Perturb      bool   `json:"perturb_sink_submit"`
 	Thresh       int    `json:"threshold"`
+	Strategy     string `json:"strategy"`
 	Salt         int    `json:"salt"`
 }
 
@@ -56,6 +57,15 @@ func genC05Load(ref core.CaseRef, r *rand.Rand, n int) *c05Load {
 		c.ResultChan, c.ReaderUs = 64, 0
 	}
 	c.DataChan = pick(r, []int{16, 128, 1024})
+	c.Strategy = "block"
+	if ref.Index%3 == 2 {
+		// the input buffer is expanded (and migrated) while the single producer outruns a slowish consumer
+		c.Strategy = "expand"
+		c.DataChan = pick(r, []int{16, 64, 256})
+		if c.SinkDelayUs == 0 {
+			c.SinkDelayUs = 5
+		}
+	}
 	c.SinkPool = pick(r, []int{0, 4, 64})
 	c.Perturb = r.Intn(3) > 0
 	c.Thresh = r.Intn(60) - 10
@@ -108,7 +118,7 @@ func (c *c05Load) wrong(i int, got map[string]any) string {
 }
 
 func runC05Load(ctx *core.Ctx) {
-	n := ctx.N(2, 16)
+	n := ctx.N(3, 18)
 	rows := ctx.N(5000, 20000)
 	par := 4
 	if w := workers(); w < par {
@@ -134,7 +144,7 @@ func execC05Load(ctx *core.Ctx, c *c05Load) {
 		ctx.Count("violations_reported."+kind, 1)
 		ctx.Violate(core.Violation{Kind: kind, Attrs: attrs(path), Detail: fmt.Sprintf("sql=%q: %s", c.SQL, detail), Case: c})
 	}
-	s, err := eng.New(c.SQL, eng.Opts{DataChan: c.DataChan, ResultChan: c.ResultChan, SinkPool: c.SinkPool})
+	s, err := eng.New(c.SQL, eng.Opts{Strategy: c.Strategy, DataChan: c.DataChan, ResultChan: c.ResultChan, SinkPool: c.SinkPool})
 	if err != nil {
 		viol("execute.rejected", "execute", err.Error())
 		return
@@ -265,7 +275,7 @@ func execC05Load(ctx *core.Ctx, c *c05Load) {
 		return
 	}
 	if st["input_dropped_count"] != 0 {
-		ctx.Inconclusive("engine declared input overload in a block-strategy load run")
+		ctx.Inconclusive("engine declared input overload in a load run")
 		return
 	}
 	ctx.Count("load.rows_emitted", int64(c.N))
@@ -352,4 +362,130 @@ func execC05Load(ctx *core.Ctx, c *c05Load) {
 		sample = map[string]any{"load_run": c, "expected": expected, "sink_results": len(sids), "channel_results": len(cids), "output_dropped_count": st["output_dropped_count"]}
 	}
 	ctx.Case(core.J(c), len(sids) > 100, sample)
+}
+
+// ---- both API paths on ONE instance at the same time -----------------------------------------------
+//
+// The filter and the projection of one instance are evaluated by the processing goroutine (Emit) and by
+// the callers of EmitSync concurrently.  Every row's decision and result must still depend on that row
+// only (the race detector watches the shared evaluator state as well).
+
+type c05Conc struct {
+	core.CaseRef
+	SQL     string `json:"sql"`
+	N       int    `json:"rows_per_path"`
+	Thresh  int    `json:"threshold"`
+	Syncers int    `json:"emitsync_goroutines"`
+}
+
+func runC05Concurrent(ctx *core.Ctx) {
+	n := ctx.N(3, 24)
+	ctx.Cases("c05conc", n, 3, func(i int, r *rand.Rand) {
+		c := &c05Conc{CaseRef: core.CaseRef{Stream: "c05conc", Index: i}, N: ctx.N(20000, 60000), Thresh: 5 + r.Intn(20), Syncers: 1 + r.Intn(2)}
+		c.SQL = []string{
+			fmt.Sprintf("SELECT id, a + b AS s FROM stream WHERE a + b > %d", c.Thresh),
+			fmt.Sprintf("SELECT id, a + b AS s FROM stream WHERE (a > %d OR b * 2 > %d) AND abs(a) >= 0", c.Thresh, c.Thresh),
+			fmt.Sprintf("SELECT id, a + b AS s FROM stream WHERE o.k + a > %d", c.Thresh),
+		}[i%3]
+		passes := func(a, b, k int) bool {
+			switch i % 3 {
+			case 0:
+				return a+b > c.Thresh
+			case 1:
+				return a > c.Thresh || b*2 > c.Thresh
+			}
+			return k+a > c.Thresh
+		}
+		row := func(id int) (Row, int, int, int) {
+			a, b, k := (id*31)%23, (id*17)%19, id%7
+			return Row{"id": id, "a": a, "b": b, "o": map[string]any{"k": k}}, a, b, k
+		}
+		attrs := map[string]string{"load": "yes", "path": "emit+emitsync", "mode": "reference"}
+		viol := func(kind, detail string) {
+			ctx.Violate(core.Violation{Kind: kind, Attrs: attrs, Detail: fmt.Sprintf("sql=%q: %s", c.SQL, detail), Case: c})
+		}
+		s, err := eng.New(c.SQL, eng.Opts{})
+		if err != nil {
+			viol("execute.rejected", err.Error())
+			return
+		}
+		var mu sync.Mutex
+		viaSink := map[int]float64{}
+		s.AddSyncSink(func(batch []map[string]any) {
+			mu.Lock()
+			for _, m := range batch {
+				id, _ := toI(m["id"])
+				f, _ := toF(m["s"])
+				viaSink[int(id)] = f
+			}
+			mu.Unlock()
+		})
+		total := c.N * (1 + c.Syncers)
+		syncRes := make([]float64, total+1)
+		syncOK := make([]bool, total+1)
+		var wg sync.WaitGroup
+		var panicked atomic.Value
+		wg.Add(1)
+		go func() { // the Emit path
+			defer wg.Done()
+			for id := 1; id <= c.N; id++ {
+				rw, _, _, _ := row(id)
+				s.Emit(rw)
+			}
+		}()
+		for g := 0; g < c.Syncers; g++ {
+			wg.Add(1)
+			go func(g int) { // EmitSync callers
+				defer wg.Done()
+				defer func() {
+					if p := recover(); p != nil {
+						panicked.Store(fmt.Sprint(p))
+					}
+				}()
+				for id := c.N*(g+1) + 1; id <= c.N*(g+2); id++ {
+					rw, _, _, _ := row(id)
+					res, err := s.EmitSync(rw)
+					if err == nil && res != nil {
+						f, _ := toF(res["s"])
+						syncRes[id], syncOK[id] = f, true
+					}
+				}
+			}(g)
+		}
+		wg.Wait()
+		c05WaitDrained(s, 60*time.Second)
+		s.Stop()
+		if p, _ := panicked.Load().(string); p != "" {
+			a := map[string]string{"site": "EmitSync", "load": "yes", "path": "emit+emitsync", "mode": "reference"}
+			ctx.Violate(core.Violation{Kind: "panic", Attrs: a, Detail: "EmitSync panicked while Emit ran on the same instance: " + p, Case: c})
+			return
+		}
+		mu.Lock()
+		defer mu.Unlock()
+		bad := 0
+		for id := 1; id <= total; id++ {
+			_, a, b, k := row(id)
+			want := passes(a, b, k)
+			var got bool
+			var val float64
+			if id <= c.N {
+				val, got = viaSink[id]
+			} else {
+				val, got = syncRes[id], syncOK[id]
+				if _, dup := viaSink[id]; !dup && got {
+					// EmitSync also delivers to the sync sink; absence there is a path disagreement
+					got = false
+				}
+			}
+			if got != want || (got && val != float64(a+b)) {
+				bad++
+				if bad == 1 {
+					viol("where.wrong_decision", fmt.Sprintf("row id=%d a=%d b=%d o.k=%d: reference says produced=%v s=%d, the engine (path %s) produced=%v s=%v, while Emit and EmitSync were evaluating the same instance concurrently",
+						id, a, b, k, want, a+b, map[bool]string{true: "Emit+sink", false: "EmitSync"}[id <= c.N], got, val))
+				}
+			}
+		}
+		ctx.Count("conc.rows_checked", int64(total))
+		ctx.Case(core.J(c), true, map[string]any{"sql": c.SQL, "rows": total, "emitsync_goroutines": c.Syncers, "wrong": bad})
+	})
 }
